@@ -321,8 +321,8 @@ func TestC18(t *testing.T) {
 	r.Assume("stamps come from one atomic counter: sends/replies at the client boundary, forwards inside the recording backend's WritePacket")
 	r.Assume("hook verif_hooks_c18.go calls recordBackendKeepAlive/forwardKeepAlive exactly like the backend and client session handlers do")
 
-	n := r.N(5000, 300000)
-	rng := r.Rng("hist")
+	n := r.N(4000, 96000)
+	shards := r.N(1, 8)
 	cfg := config.DefaultConfig
 	cfg.OnlineMode = false
 	px, err := proxy.New(proxy.Options{Config: &cfg, EventMgr: event.Nop, Authenticator: sharedAuth()})
@@ -336,10 +336,46 @@ func TestC18(t *testing.T) {
 	}
 	servers := []proxy.RegisteredServer{srvA, srvB}
 
-	var nSends, nReplies, nFwds, nDropped, nContended, nEvictedReplies, nUnknownReplies, nFwdInFlight, nFwdConfig int
+	var tot stats
+	var tmu sync.Mutex
+	var swg sync.WaitGroup
+	for sh := 0; sh < shards; sh++ {
+		swg.Add(1)
+		go func(sh int) {
+			defer swg.Done()
+			st := runShard(r, px, servers, sh, n/shards)
+			tmu.Lock()
+			tot.add(st)
+			tmu.Unlock()
+		}(sh)
+	}
+	swg.Wait()
+	nSends, nReplies, nFwds, nDropped, nContended, nEvictedReplies, nUnknownReplies, nFwdConfig := tot.v[0], tot.v[1], tot.v[2], tot.v[3], tot.v[4], tot.v[5], tot.v[6], tot.v[7]
+	r.Count("backend_keepalives_recorded", nSends)
+	r.Count("client_replies_handled", nReplies)
+	r.Count("forwards_observed", nFwds)
+	r.Count("forwards_while_backend_in_config", nFwdConfig)
+	r.Count("replies_not_forwarded", nDropped)
+	r.Count("replies_with_id_nobody_sent", nUnknownReplies)
+	r.Count("replies_in_flood_histories_to_possibly_evicted_ids", nEvictedReplies)
+	r.Count("replies_overlapping_another_reply_of_same_id", nContended)
+}
+
+type stats struct{ v [8]int }
+
+func (a *stats) add(b stats) {
+	for i := range a.v {
+		a.v[i] += b.v[i]
+	}
+}
+
+// runShard runs n histories with its own PRNG stream; shards share the proxy (read-only here).
+func runShard(r *lib.Run, px *proxy.Proxy, servers []proxy.RegisteredServer, shard, n int) stats {
+	rng := r.Rng(fmt.Sprintf("hist/%d", shard))
+	var nSends, nReplies, nFwds, nDropped, nContended, nEvictedReplies, nUnknownReplies, nFwdConfig int
 	for hi := 0; hi < n; hi++ {
 		h := genHist(rng)
-		r.LogCase(map[string]any{"history": hi, "spec": fmt.Sprintf("%+v", h)})
+		r.LogCase(map[string]any{"shard": shard, "history": hi, "spec": fmt.Sprintf("%+v", h)})
 		a, _ := lib.Pipe()
 		cconn, _ := netmc.NewMinecraftConn(context.Background(), a, gproto.ServerBound, 0, 0, -1, nil)
 		cconn.SetProtocol(version.Minecraft_1_20_2.Protocol)
@@ -470,7 +506,6 @@ func TestC18(t *testing.T) {
 				nFwdConfig++
 			}
 		}
-		_ = nFwdInFlight
 		fm := map[string]int{}
 		for _, f := range fwds {
 			fm[fmt.Sprintf("%d:%d", f.B, f.ID)]++
@@ -481,14 +516,7 @@ func TestC18(t *testing.T) {
 		}
 		_ = cconn.Close()
 	}
-	r.Count("backend_keepalives_recorded", nSends)
-	r.Count("client_replies_handled", nReplies)
-	r.Count("forwards_observed", nFwds)
-	r.Count("forwards_while_backend_in_config", nFwdConfig)
-	r.Count("replies_not_forwarded", nDropped)
-	r.Count("replies_with_id_nobody_sent", nUnknownReplies)
-	r.Count("replies_in_flood_histories_to_possibly_evicted_ids", nEvictedReplies)
-	r.Count("replies_overlapping_another_reply_of_same_id", nContended)
+	return stats{[8]int{nSends, nReplies, nFwds, nDropped, nContended, nEvictedReplies, nUnknownReplies, nFwdConfig}}
 }
 
 func pickStateDet(i int) string { return []string{"play", "config", "login", "config"}[i%4] }
